@@ -227,7 +227,7 @@ func vC13ReadSegment(seg []byte) (got []WALEntry, count int64, stoppedOnError bo
 
 func TestVerifC13WAL(t *testing.T) {
 	st := verifkit.For("C13", "TestVerifC13WAL",
-		"WAL segments of 1-30 entries (write entries with 1-5 keys of any field type and 1-400 values, delete and delete-range entries) written through WALSegmentWriter exactly as WAL.writeToLog does (Encode, snappy, 5-byte frame); every entry must survive MarshalBinary/UnmarshalBinary, and the segment cut at every byte offset (exhaustive up to 4 KiB, every entry boundary +-3 and 256 drawn offsets beyond) must replay exactly the entries that end at or before the cut, report Count() = end of the last complete entry, and stop without panic. non-trivial = a (segment, cut) pair whose cut lies strictly inside an entry that follows at least one complete entry; distinct = entry kind sequence + position of the cut inside the torn entry (header / payload)")
+		"WAL segments of 1-30 entries (write entries with 1-5 keys of any field type and 1-400 values, delete and delete-range entries) written through WALSegmentWriter exactly as WAL.writeToLog does (Encode, snappy, 5-byte frame); every entry must survive MarshalBinary/UnmarshalBinary and Encode into a recycled buffer pre-filled with 0x01/0xff/0x00, and the segment cut at every byte offset (exhaustive up to 4 KiB, every entry boundary +-3 and 256 drawn offsets beyond) must replay exactly the entries that end at or before the cut, report Count() = end of the last complete entry, and stop without panic. non-trivial = a (segment, cut) pair whose cut lies strictly inside an entry that follows at least one complete entry; distinct = entry kind sequence + position of the cut inside the torn entry (header / payload)")
 	defer st.Flush()
 	seen := &vC13Seen{m: map[string]int{}}
 	cases := 0
